@@ -783,18 +783,27 @@ theorem C17_ihaar_haar_any {K : Type} [Field K] (h2 : (2 : K) ≠ 0) (pe : Bool)
 example : (List.range 5).map (ihaarRow 5 (haarRow 5 (fun i => ((i : ℚ) + 1) ^ 2))) = [1, 4, 9, 16, 0] := by
   decide +kernel
 
-/-- **C17 (the pointer `high = data + step*N1/2`).** `ihaar` and `iwavelet` compute the address of the second half
-of a row as `data + (step·N)/2` with C's truncating division. It is the address of sample `N/2`, `data + step·(N/2)`,
-whenever `N` is even or `step = ±1`; for odd `N` it is off by exactly `step/2` (truncated) elements — zero only for
-`|step| ≤ 1`. -/
-theorem C17_high_pointer (step : Int) (N : Nat) :
-    ((N % 2 = 0 ∨ step = 1 ∨ step = -1) → Mem.highOff step N = step * ((N / 2 : Nat) : Int)) ∧
-    (N % 2 = 1 → Mem.highOff step N = step * ((N / 2 : Nat) : Int) + step.tdiv 2) :=
-  ⟨fun h => Mem.highOK_of step N h, fun h => Mem.highOff_odd step N h⟩
+/-- **C17 (the pointer `high`, as repaired).** `ihaar` and `iwavelet` compute the address of the second half of a row as
+`data + step·(N/2)`: the address of sample `N/2` for every stride and every length (after the repair
+"fix: ihaar/iwavelet computed the start of the high-pass half as (step*N1)/2 instead of step*(N1/2)"). -/
+theorem C17_high_pointer (step : Int) (N : Nat) : Mem.highOff step N = step * ((N / 2 : Nat) : Int) := rfl
 
-/-- non-vacuity: the transposed pass over a C-contiguous `3 × 2` array (`step = 2`, `N = 3`): `high` is one element
-too far; over a `3 × 3` array (`step = 3`) likewise; with `step = 1` it is right -/
-example : Mem.highOff 2 3 = 3 ∧ (2 : Int) * ((3 / 2 : Nat) : Int) = 2 ∧ Mem.highOff 3 3 = 4 ∧ Mem.highOff 1 3 = 1 := by
+/-- **C17 (history: the pointer of the pinned tree).** The pinned code computed `data + (step·N)/2` with C's truncating
+division. That is the address of sample `N/2` whenever `N` is even or `step = ±1`; for odd `N` it is off by exactly
+`step/2` (truncated) elements — zero only for `|step| ≤ 1` (the defect found by the layout sweep of C08 in round 4). -/
+theorem C17_high_pointer_pinned (step : Int) (N : Nat) :
+    ((N % 2 = 0 ∨ step = 1 ∨ step = -1) → Mem.highOffPinned step N = step * ((N / 2 : Nat) : Int)) ∧
+    (N % 2 = 1 → Mem.highOffPinned step N = step * ((N / 2 : Nat) : Int) + step.tdiv 2) :=
+  ⟨fun h => by
+      rcases h with h | h
+      · exact Mem.highOffPinned_even step N h
+      · exact Mem.highOffPinned_unit step N h,
+   fun h => Mem.highOffPinned_odd step N h⟩
+
+/-- non-vacuity: the transposed pass over a C-contiguous `3 × 2` array (`step = 2`, `N = 3`): the pinned `high` was one
+element too far; over a `3 × 3` array (`step = 3`) likewise; with `step = 1` it was right; the repaired one is right -/
+example : Mem.highOffPinned 2 3 = 3 ∧ Mem.highOff 2 3 = 2 ∧ Mem.highOffPinned 3 3 = 4 ∧ Mem.highOff 3 3 = 3 ∧
+    Mem.highOffPinned 1 3 = 1 := by
   decide
 
 /-- **C17 (the C kernels on strided memory are the core model).** For each of the four wrappers (`haar`, `ihaar`,
@@ -813,12 +822,23 @@ theorem C17_mem_is_core {K : Type} [Field K] (w : Mem.Wrapper) (pe : Bool) (cs :
     (∀ a, (∀ y x, y < v.N0 → x < v.N1 → a ≠ v.addr y x) → Mem.wrapperBody w pe cs v m a = m a) :=
   Mem.wrapperBody_spec w pe cs v hinj (Mem.highOK_of _ _ h1) (Mem.highOK_of _ _ h0) m
 
-/-- non-vacuity of `C17_mem_is_core` (a C-contiguous `2 × 4` view is injective with both sides even) and the case it
-excludes: on the C-contiguous `3 × 2` array with rows `(1,4), (9,16), (25,36)` the memory-level `ihaar` returns
-`(−7, 5/4), (11/2, 5/4), (0, 0)` — what the real code returns — while the core model gives `(1, −5), (−5/2, 15/2), (0, 0)` -/
+/-- **C17 (the C kernels on strided memory are the core model, every shape).** As repaired (`C17_high_pointer`) the
+parity / unit-stride hypotheses of `C17_mem_is_core` are not needed: for every injective view, odd sides included, the
+memory-level wrapper leaves the core 2-D model in the view and touches nothing else. -/
+theorem C17_mem_is_core_every_shape {K : Type} [Field K] (w : Mem.Wrapper) (pe : Bool) (cs : List K) (v : Mem.View)
+    (hinj : v.Inj) (m : Mem.Memory K) :
+    (∀ y x, y < v.N0 → x < v.N1 →
+      Mem.wrapperBody w pe cs v m (v.addr y x) = Mem.core2 w pe cs v.N0 v.N1 (v.read m) y x) ∧
+    (∀ a, (∀ y x, y < v.N0 → x < v.N1 → a ≠ v.addr y x) → Mem.wrapperBody w pe cs v m a = m a) :=
+  Mem.wrapperBody_spec w pe cs v hinj (Mem.highOK_all _ _) (Mem.highOK_all _ _) m
+
+/-- non-vacuity of `C17_mem_is_core` (a C-contiguous `2 × 4` view is injective with both sides even) and the case the
+pinned tree got wrong: on the C-contiguous `3 × 2` array with rows `(1,4), (9,16), (25,36)` the pinned code returned
+`(−7, 5/4), (11/2, 5/4), (0, 0)`; the memory-level `ihaar` (as repaired, = the real code now) and the core model both give
+`(1, −5), (−5/2, 15/2), (0, 0)` -/
 example : (Mem.View.contig 2 4).Inj ∧
     (List.range 6).map (fun (a : Nat) => Mem.wrapperBody .ihaar false ([] : List ℚ) (Mem.View.contig 3 2)
-      (fun p => ([1, 4, 9, 16, 25, 36] : List ℚ).getD p.toNat 0) (a : Int)) = [-7, 5 / 4, 11 / 2, 5 / 4, 0, 0] ∧
+      (fun p => ([1, 4, 9, 16, 25, 36] : List ℚ).getD p.toNat 0) (a : Int)) = [1, -5, -5 / 2, 15 / 2, 0, 0] ∧
     (List.range 6).map (fun (a : Nat) => ihaar2 false 3 2
       (fun y x => ([1, 4, 9, 16, 25, 36] : List ℚ).getD (2 * y + x) 0) (a / 2) (a % 2)) = [1, -5, -5 / 2, 15 / 2, 0, 0] := by
   refine ⟨Mem.contig_inj 2 4, ?_, ?_⟩ <;> decide +kernel
@@ -1046,12 +1066,11 @@ example : |idaubechies2 (coeffsOf 1) 4 4 (daubechies2 (coeffsOf 1) 4 4 (fun y x 
     (by intro y x _ _; by_cases h : y = 2 ∧ x = 2 <;> simp [h]) 2 2 (by omega) (by omega) (by omega) (by omega)
   simpa using this
 
-/-- **C17 (the truncated pointer never leaves the row).** For every stride (positive, negative, zero), every length
-`N` (odd included) and every sample index `i < N/2` that `ihaar` (`high[i·step]`) and `iwavelet`
+/-- **C17 (the `high` reads stay in the row).** For every stride (positive, negative, zero), every length `N` (odd
+included) and every sample index `i < N/2` that `ihaar` (`high[i·step]`) and `iwavelet`
 (`_access(high, N1/2, i, step)`) use: the address offset `highOff step N + step·i` relative to `data` lies in
 `[0, step·(N−1)]` (in `[step·(N−1), 0]` for a negative stride) — between the first and the last element of the row the
-kernel was given. So the misplaced reads on odd sides are reads of other elements of the same array, never
-out-of-bounds accesses. -/
+kernel was given. -/
 theorem C17_high_reads_in_row (step : Int) (N i : Nat) (hi : i < N / 2) :
     (0 ≤ step → 0 ≤ Mem.highOff step N + step * (i : Int) ∧
       Mem.highOff step N + step * (i : Int) ≤ step * ((N - 1 : Nat) : Int)) ∧
@@ -1059,7 +1078,17 @@ theorem C17_high_reads_in_row (step : Int) (N i : Nat) (hi : i < N / 2) :
       Mem.highOff step N + step * (i : Int) ≤ 0) :=
   Mem.high_read_in_row step N i hi
 
+/-- **C17 (history: the truncated pointer of the pinned tree never left the row).** The misplaced reads of the pinned
+code on odd sides were reads of other elements of the same array, never out-of-bounds accesses. -/
+theorem C17_high_reads_in_row_pinned (step : Int) (N i : Nat) (hi : i < N / 2) :
+    (0 ≤ step → 0 ≤ Mem.highOffPinned step N + step * (i : Int) ∧
+      Mem.highOffPinned step N + step * (i : Int) ≤ step * ((N - 1 : Nat) : Int)) ∧
+    (step ≤ 0 → step * ((N - 1 : Nat) : Int) ≤ Mem.highOffPinned step N + step * (i : Int) ∧
+      Mem.highOffPinned step N + step * (i : Int) ≤ 0) :=
+  Mem.highPinned_read_in_row step N i hi
+
 /-- non-vacuity: the transposed pass over a C-contiguous `5 × 5` array (`step = 5`, `N = 5`): the two high samples are
 read at offsets 12 and 17, inside `[0, 20]`, where samples 2 and 3 of the column are at 10 and 15 -/
-example : Mem.highOff 5 5 + 5 * 0 = 12 ∧ Mem.highOff 5 5 + 5 * 1 = 17 ∧ (5 : Int) * ((5 - 1 : Nat) : Int) = 20 := by
+example : Mem.highOffPinned 5 5 + 5 * 0 = 12 ∧ Mem.highOffPinned 5 5 + 5 * 1 = 17 ∧ Mem.highOff 5 5 + 5 * 0 = 10 ∧
+    Mem.highOff 5 5 + 5 * 1 = 15 ∧ (5 : Int) * ((5 - 1 : Nat) : Int) = 20 := by
   decide
